@@ -17,9 +17,10 @@ echo "== 2. demo on the changed build (must fail) and on the base build (must pa
 ( cd "$dst" && timeout 120 sh demo.sh /tmp/wt-base/_build >/dev/null 2>&1 ); d0=$?
 echo "demo with change: exit $d1 ; demo on base: exit $d0"
 echo "== 3. quick check against the change"
-git -C /repo apply "$dst/patch.diff" || { echo "PATCH-DOES-NOT-APPLY"; exit 2; }
-out=$(cd /verif && ./check "$id" --tier quick 2>&1); rc=$?
-git -C /repo checkout -- .
+# the check is pointed at the worktree (which is /repo's HEAD + the change); /repo itself is not touched,
+# so that background sweeps on /repo are not disturbed.  Equivalent to: git -C /repo apply; check; checkout.
+git -C /repo apply --check "$dst/patch.diff" || { echo "PATCH-DOES-NOT-APPLY"; exit 2; }
+out=$(cd /verif && VERIF_REPO="$wt" ./check "$id" --tier quick --no-evidence 2>&1); rc=$?
 for f in /verif/replays/$id/found-*; do [ -d "$f" ] && { mkdir -p "$dst/found"; mv "$f" "$dst/found/"; }; done
 echo "$out" | grep -E "VIOLATION|failure key|tier=|INCONCLUSIVE|HARNESS" | cut -c1-260 | head -8
 echo "check exit: $rc"
@@ -31,7 +32,7 @@ meta = {"property": id, "name": name, "suite_with_change": suite.strip(), "demo_
         "caught_by_quick_check": int(rc) == 1,
         "what_i_ran": ["cmake+ninja build of the worktree with the change", "ctest -j8 in that build",
                        "sh demo.sh <changed build>", "sh demo.sh <base build of HEAD>",
-                       "git -C /repo apply patch.diff; ./check %s --tier quick; git -C /repo checkout -- ." % id]}
+                       "VERIF_REPO=<worktree = /repo HEAD + patch.diff> ./check %s --tier quick (same as applying the patch to /repo)" % id]}
 try:
     meta["needs_to_manifest"] = open('/verif/seeded/%s/notes.md' % name).read()[:1500]
 except OSError:
